@@ -338,6 +338,28 @@ func checkC06(c *Ctx) {
 		}
 	}
 
+	// ---- C06.11 "whose host did not match a blocklisted domain pattern": the pattern test looks at the patterns whatever
+	// else is configured (an allowlist does not switch it off)
+	r.Rule("C06.11", "isBlocklistedCovertDomain consults the patterns on every path", 1)
+	if f := c.fn("C06.11", lib, "RegConfig", "isBlocklistedCovertDomain"); f != nil {
+		n := 0
+		eachInstr(f, func(in ssa.Instruction) {
+			u, ok := in.(*ssa.UnOp)
+			if !ok || u.Op != token.MUL {
+				return
+			}
+			if _, fld, ok := fieldOwner(u.X); !ok || fld != "covertBlocklistDomains" {
+				return
+			}
+			n++
+			r.Check(unconditional(f, in), "C06.11", "isBlocklistedCovertDomain: the pattern list is read on every path", in.Pos(), fnName(f), "reached whatever any condition says",
+				"the domain patterns are skipped under some condition (an enabled allowlist, a kind of host): a host that matches a blocklisted pattern is resolved and, if the answer is otherwise acceptable, admitted")
+		})
+		if n == 0 {
+			r.Unk("C06.11", "isBlocklistedCovertDomain: read of the patterns", f.Pos(), fnName(f), "not found")
+		}
+	}
+
 	// ---- C06.9 "for every station configuration": after a reload the lists in force are the new configuration's
 	r.Rule("C06.9", "a reload takes over every parsed policy list of the new configuration, unconditionally", 2)
 	checkReloadTakeover(c, "C06.9")
